@@ -521,14 +521,15 @@ class GetTID(MvccSpec):
             return [Outcome('both', 'raise', 'builtins:ValueError')]
         if isinstance(at, VBytes):
             a = bytes_num(c, at)
-            return [Outcome('at', post=lambda c, E, r: [
+            return [Outcome('at', result=lambda c, E: c.fresh_bytes(8, 'bound'), post=lambda c, E, r: [
                 ('exclusive-bound-is-the-next-stamp-after-at', b8_eq_num(c, r, timestamp.LATER(a)))])]
         if isinstance(before, VBytes):
             b = bytes_num(c, before)
-            return [Outcome('before', post=lambda c, E, r: [('bound-is-before-itself',
-                                                            b8_eq_num(c, r, b))])]
+            return [Outcome('before', result=lambda c, E: c.fresh_bytes(8, 'bound'),
+                            post=lambda c, E, r: [('bound-is-before-itself', b8_eq_num(c, r, b))])]
         if isinstance(at, VNone) and isinstance(before, VNone):
-            return [Outcome('neither', post=lambda c, E, r: [('none', isinstance(r, VNone))])]
+            return [Outcome('neither', result=lambda c, E: NONE,
+                            post=lambda c, E, r: [('none', isinstance(r, VNone))])]
 
         def dt_post(c, E, r):
             ts = [e for e in c.events if e[0] == 'TimeStamp']
@@ -707,3 +708,223 @@ class InstanceStoreBlob(InstanceStore):
 
 
 SPECS += [InstanceStore, InstanceStoreBlob]
+
+
+# ======================================================================================
+# C15: where the historical bound comes from - DB.open and Connection.get_connection
+# ======================================================================================
+def dbmap_getitem(c, recv, o, key, node):
+    c.event('database-looked-up', key)
+    return o.meta['db']
+
+
+def dbmap_method(c, interp, ref, o, name, args, kwargs, node):
+    if name == 'get':
+        if c.choose([True, True], 'already-connected') == 0:
+            return NONE
+        c.event('existing-connection')
+        return o.meta['existing']
+    if name == 'update':
+        c.event('connections-merged', args[0])
+        return NONE
+    raise Unsupported('connections.%s' % name, node)
+
+
+prims.KIND_GETITEM['dbmap'] = dbmap_getitem
+prims.KIND_METHOD['dbmap'] = dbmap_method
+
+
+class GetConnection(MvccSpec):
+    """Connection.get_connection: the connection to another database of a multi-database is opened with THIS
+    connection's transaction manager and THIS connection's historical bound (None for a live one), so that a
+    historical connection's partners read the same past state and are read-only as well."""
+    func = 'ZODB.Connection:Connection.get_connection'
+    props = ('C15',)
+    cases = ('historical', 'live')
+
+    def setup(self, c, case=None):
+        other_db = c.fresh_opaque('other_db')
+        dbs = c.new_obj('dbmap', None, {}, {'db': other_db, 'name': 'databases'})
+        db = inst(c, 'ZODB.DB:DB', databases=dbs)
+        existing = c.fresh_opaque('existing_connection')
+        conns = c.new_obj('dbmap', None, {}, {'existing': existing, 'name': 'connections'})
+        tm = c.fresh_opaque('transaction_manager')
+        before = c.fresh_bytes(8, 'before') if case == 'historical' else NONE
+        me = inst(c, 'ZODB.Connection:Connection', _db=db, connections=conns, transaction_manager=tm,
+                  before=before)
+        c.ghost['gc'] = {'other_db': other_db, 'tm': tm, 'before': before, 'conns': conns,
+                         'existing': existing, 'name': c.fresh_opaque('database_name')}
+        return {'self': me, 'database_name': c.ghost['gc']['name']}
+
+    def hooks(self, c):
+        def ometh(cc, v, name, args, kwargs, node):
+            if v.tag == 'other_db' and name == 'open':
+                n = cc.fresh_opaque('new_connection')
+                cc.event('opened', tuple(args), dict(kwargs), n)
+                return n
+            return None
+
+        def oattr(cc, v, name, node):
+            if v.tag == 'new_connection' and name == 'connections':
+                return cc.fresh_opaque('its_connections')
+            return None
+
+        def osetattr(cc, v, name, val, node):
+            if v.tag == 'new_connection' and name == 'connections':
+                cc.event('shares-connections', v, val)
+                return True
+            return None
+        return {'opaque_method': ometh, 'opaque_attr': oattr, 'opaque_setattr': osetattr,
+                'opaque_is_none': lambda cc, v: False}
+
+    def modifies(self, c, E):
+        return set()
+
+    def outcomes(self, c, E):
+        g = c.ghost['gc']
+
+        def post(c, E, r):
+            opened = [e for e in c.events if e[0] == 'opened']
+            if any(e[0] == 'existing-connection' for e in c.events):
+                return [('existing-partner-reused', isinstance(r, VOpaque) and r is g['existing'] and not opened)]
+            ok1 = len(opened) == 1 and not opened[0][1]
+            kw = opened[0][2] if opened else {}
+            b = kw.get('before')
+            same_bound = (isinstance(b, VNone) and isinstance(g['before'], VNone)) or \
+                (isinstance(b, VBytes) and isinstance(g['before'], VBytes) and
+                 bytes_num(c, b) == bytes_num(c, g['before']))
+            return [('partner-opened-once-in-the-named-database', ok1 and any(
+                        e[0] == 'database-looked-up' and e[1] is g['name'] for e in c.events)),
+                    ('partner-uses-the-same-transaction-manager', kw.get('transaction_manager') is g['tm']),
+                    ('partner-reads-at-the-same-historical-bound', same_bound if b is not None else False),
+                    ('no-at-argument', 'at' not in kw),
+                    ('partner-shares-the-connection-table', any(
+                        e[0] == 'shares-connections' and e[1] is opened[0][3] and
+                        isinstance(e[2], VRef) and e[2].id == g['conns'].id for e in c.events) if opened else False),
+                    ('returns-the-new-partner', bool(opened) and r is opened[0][3])]
+        return [Outcome('ok', post=post, result=lambda cc, E: cc.fresh_opaque('connection'))]
+
+
+class DBOpen(MvccSpec):
+    """DB.open: at/before are normalised to ONE exclusive bound (getTID); a bound later than the newest transaction
+    (i.e. greater than both its tid and the stamp following it) is refused with ValueError and nothing is opened;
+    otherwise the connection handed out was constructed with, or pooled under, exactly that bound - a live one
+    (bound None) comes from the live pool - and is opened with the caller's transaction manager."""
+    func = 'ZODB.DB:DB.open'
+    props = ('C15',)
+    cases = ('before', 'at', 'live')
+
+    def setup(self, c, case=None):
+        timestamp.install(c.hooks)
+        lock = prims.new_lock(c, 'DB._lock', reentrant=False, held=0)
+        last = c.fresh_bytes(8, 'last_tid')
+        me = inst(c, 'ZODB.DB:DB', _lock=lock, pool=c.fresh_opaque('pool'),
+                  historical_pool=c.fresh_opaque('historical_pool'),
+                  _historical_cache_size=c.fresh_int('hcs'), _historical_cache_size_bytes=c.fresh_int('hcsb'),
+                  _cache_size=c.fresh_int('cs'), _cache_size_bytes=c.fresh_int('csb'))
+        tm = c.fresh_opaque('transaction_manager')
+        c.ghost['do'] = {'last': last, 'tm': tm, 'lock': lock, 'pushed': {}}
+        return {'self': me, 'transaction_manager': tm,
+                'at': c.fresh_bytes(8, 'at') if case == 'at' else NONE,
+                'before': c.fresh_bytes(8, 'before') if case == 'before' else NONE}
+
+    def bound(self, c, E):
+        if isinstance(E['at'], VBytes):
+            return timestamp.LATER(bytes_num(c, E['at']))
+        if isinstance(E['before'], VBytes):
+            return bytes_num(c, E['before'])
+        return None
+
+    def hooks(self, c):
+        g = lambda cc: cc.ghost['do']
+
+        def last_txn(cc, args, kwargs, node):
+            return g(cc)['last']
+
+        def construct(cc, interp, args, kwargs, node):
+            n = cc.fresh_opaque('constructed_connection')
+            cc.event('constructed', tuple(args), n)
+            return n
+
+        def ometh(cc, v, name, args, kwargs, node):
+            if v.tag in ('pool', 'historical_pool'):
+                cc.oblige('pools-touched-under-the-database-lock', cc.obj(g(cc)['lock']).f['held'] >= 1, node,
+                          assume_after=False)
+                if name == 'pop':
+                    pushed = g(cc)['pushed'].get(v.tag)
+                    if pushed is not None:
+                        cc.event('popped', v.tag, tuple(args), pushed[0], 'pushed')
+                        return pushed[0]
+                    if cc.choose([True, True], 'pool-has-one') == 0:
+                        return NONE
+                    n = cc.fresh_opaque('pooled_connection')
+                    cc.event('popped', v.tag, tuple(args), n, 'pooled')
+                    return n
+                if name == 'push':
+                    g(cc)['pushed'][v.tag] = (args[0], tuple(args[1:]))
+                    cc.event('pushed', v.tag, tuple(args))
+                    return NONE
+                if name == 'availableGC':
+                    return NONE
+            if v.tag in ('pooled_connection', 'constructed_connection') and name == 'open':
+                cc.event('connection-opened', v, tuple(args))
+                return NONE
+            return None
+
+        def isinst(cc, v, clsname):
+            if v.tag == 'transaction_manager' and clsname.endswith('str'):
+                return False
+            return None
+        hk = {'call:ZODB.DB:DB.lastTransaction': last_txn, 'construct:ZODB.Connection:Connection': construct,
+              'opaque_method': ometh, 'opaque_isinstance': isinst, 'opaque_is_none': lambda cc, v: False}
+        timestamp.install(hk)
+        return hk
+
+    def modifies(self, c, E):
+        return set()
+
+    def outcomes(self, c, E):
+        g = c.ghost['do']
+        b = self.bound(c, E)
+        last = bytes_num(c, g['last'])
+        future = z3.BoolVal(False) if b is None else z3.And(b > last, b > timestamp.LATER(last))
+
+        def same_key(key):
+            if b is None:
+                return len(key) == 0
+            return len(key) == 1 and isinstance(key[0], VBytes) and bytes_num(c, key[0]) == b
+
+        def post(c, E, r):
+            pops = [e for e in c.events if e[0] == 'popped']
+            made = [e for e in c.events if e[0] == 'constructed']
+            opened = [e for e in c.events if e[0] == 'connection-opened']
+            want_pool = 'pool' if b is None else 'historical_pool'
+            out = [('connection-comes-from-the-right-pool', bool(pops) and all(e[1] == want_pool for e in pops)),
+                   ('pool-key-is-the-normalised-bound', as_z3_bool(z3.And(*[
+                       x if isinstance(x, z3.ExprRef) else z3.BoolVal(bool(x)) for x in
+                       [same_key(e[2]) for e in pops]])) if pops else False),
+                   ('returns-the-popped-connection', bool(pops) and r is pops[-1][3]),
+                   ('opened-once-with-the-callers-transaction-manager',
+                    len(opened) == 1 and opened[0][1] is r and len(opened[0][2]) == 1 and
+                    opened[0][2][0] is g['tm']),
+                   ('database-lock-released', c.obj(g['lock']).f['held'] == 0)]
+            if made:
+                a = made[0][1]
+                bnd = a[2] if len(a) > 2 else None
+                okb = (isinstance(bnd, VNone) and b is None) or \
+                    (isinstance(bnd, VBytes) and b is not None and bytes_num(c, bnd) == b)
+                out.append(('new-connection-constructed-with-the-normalised-bound', okb))
+                pushed = [e for e in c.events if e[0] == 'pushed']
+                out.append(('new-connection-filed-under-the-bound', len(pushed) == 1 and
+                            pushed[0][1] == want_pool and pushed[0][2][0] is made[0][2] and
+                            same_key(pushed[0][2][1:])))
+            return out
+
+        def refused(c, E, r):
+            return [('nothing-opened', not any(e[0] in ('popped', 'constructed', 'connection-opened')
+                                               for e in c.events))]
+        return [Outcome('ok', guard=z3.Not(future), post=post, result=lambda cc, E: cc.fresh_opaque('connection')),
+                Outcome('future-refused', 'raise', 'builtins:ValueError', guard=future, post=refused)]
+
+
+SPECS += [GetConnection, DBOpen]
